@@ -163,6 +163,9 @@ func generateGrid(family string, n int, r *rng, p func(string, ...any)) bool {
 	case "keygrid":
 		genKeyGrid(r, n, p)
 		return true
+	case "tbsgrid":
+		genTbsGrid(p)
+		return true
 	case "keyrt":
 		genKeyRT(r, n, p)
 		return true
@@ -494,3 +497,101 @@ func genEcGrid(r *rng, n int, p func(string, ...any)) {
 	}
 }
 
+
+
+// protected-header content of exactly `target` bytes: {1: -7, 4: h'00…'} (or the empty map / string)
+func contentOfLen(target int) ([]byte, bool) {
+	if target == 0 {
+		return []byte{}, true
+	}
+	if target == 1 {
+		return []byte{0xa0}, true
+	}
+	for pad := 0; pad <= target; pad++ {
+		c := wMap(wInt(1), wInt(-7), wInt(4), wBstr(make([]byte, pad))).enc()
+		if len(c) == target {
+			return c, true
+		}
+		if len(c) > target {
+			break
+		}
+	}
+	return nil, false
+}
+
+// C02 / C03 / C07 / C09 / C10: every length-prefix boundary of a protected bucket × every head
+// width a peer may use for it, in every structure that signs protected bytes.
+func genTbsGrid(p func(string, ...any)) {
+	targets := []int{0, 1, 22, 23, 24, 25, 254, 255, 256, 257, 65535, 65536}
+	widths := []int{-1, 1, 2, 4, 8}
+	payload := []byte{0x50}
+	for _, t := range targets {
+		content, ok := contentOfLen(t)
+		if !ok {
+			continue
+		}
+		hasAlg := t >= 5
+		ext, exts := []byte{}, "-"
+		if !hasAlg {
+			ext, exts = []byte{1}, "01"
+		}
+		for _, hw := range widths {
+			if hw >= 0 && hw < shortestHW(uint64(len(content))) {
+				continue
+			}
+			prot := wBstr(content)
+			prot.HW = hw
+			// COSE_Sign1, tagged and untagged
+			sig := tsig(1, refTBS1(content, ext, payload))
+			msg := wArr(prot, wMap(), wBstr(payload), wBstr(sig))
+			enc := hexs(wTag(18, msg).enc())
+			big := t > 1000
+			p("v1 t %s %s T:-7:1 - !wf", enc, exts)
+			p("reenc s1 %s keep 2", enc)
+			if !big {
+				p("v1 u %s %s T:-7:1 - !wf", hexs(msg.enc()), exts)
+				p("reenc s1 %s clear 2", enc)
+			}
+			// COSE_Sign: boundary in the body bucket and in the signer bucket
+			for _, where := range []string{"body", "signer", "both"} {
+				if big && where != "both" {
+					continue
+				}
+				body, sp := wBstr([]byte{}), wBstr(wMap(wInt(1), wInt(-7)).enc())
+				bodyC, spC := []byte{}, sp.B
+				e2, e2s := []byte{}, "-"
+				if where == "body" || where == "both" {
+					body, bodyC = prot.clone(), content
+				}
+				if where == "signer" || where == "both" {
+					sp, spC = prot.clone(), content
+					if !hasAlg {
+						e2, e2s = []byte{1}, "01"
+					}
+				}
+				sg := wArr(sp, wMap(), wBstr(tsig(1, refTBSSig(bodyC, spC, e2, payload))))
+				sg.Fixed = true
+				sm := wTag(98, wArr(body, wMap(), wBstr(payload), wArr(sg)))
+				p("vm %s %s [T:-7:1] - !wf", hexs(sm.enc()), e2s)
+				if where == "both" {
+					p("reenc sm %s keep 1", hexs(sm.enc()))
+				}
+			}
+			// countersignatures over decoded parents of every kind, full and abbreviated, and a
+			// countersigner whose own protected bucket sits on the boundary (decoded, then verified)
+			sgp := wArr(prot.clone(), wMap(), wBstr([]byte{7, 7}))
+			for _, form := range []string{"full", "abbr"} {
+				p("cs %s s1 p hex:%s H(-;{i64:1=a:-7};-;{}) - T:-7:1 T:-7:1", form, enc)
+				if big {
+					continue
+				}
+				p("cs %s s1 v hex:%s H(-;{i64:1=a:-7};-;{}) 01 T:-7:1 T:-7:1", form, enc)
+				p("cs %s sig p hex:%s H(-;{i64:1=a:-7};-;{}) - T:-7:1 T:-7:1", form, hexs(sgp.enc()))
+				p("cs %s csig v hex:%s H(-;{i64:1=a:-7};-;{}) - T:-7:1 T:-7:1", form, hexs(sgp.enc()))
+			}
+			if hasAlg && !big {
+				p("cs full s1 p hex:%s H(%s;{i64:1=a:-7};-;{}) - T:-7:1 T:-7:1", enc, hexs(prot.enc()))
+			}
+		}
+	}
+}
